@@ -1,5 +1,8 @@
 use std::sync::atomic::Ordering;
+#[cfg(not(aquatic_verif))]
 use std::time::Instant;
+#[cfg(aquatic_verif)]
+use aquatic_verif_rt::time::Instant;
 
 use hdrhistogram::Histogram;
 use num_format::{Locale, ToFormattedString};
